@@ -13,6 +13,7 @@ Apply(st, op) ==
     [] op[1] = "hdr"   -> OpHeader(st, op[2], op[3], op[4], op[5])
     [] op[1] = "newb"  -> OpNewBuilder(st, op[2], op[3])
     [] op[1] = "prep"  -> OpPrepare(st, op[2])
+    [] op[1] = "send"  -> st
 
 AllNames(h1, h2) == {h1[i][1] : i \in 1..Len(h1)} \cup {h2[i][1] : i \in 1..Len(h2)}
 Pairs(q) == [i \in 1..Len(q) |-> <<q[i][1], q[i][2]>>]
@@ -29,6 +30,10 @@ Step(e) ==
   IF e.ev = "reset" THEN store' = [o \in Objs |-> NoObj] /\ sid' = e.id /\ hist' = <<>>
   ELSE /\ store' = Apply(store, e.op)
        /\ hist' = hist /\ sid' = sid
+       /\ (e.op[1] = "send" /\ (e.wire.hops # WireBehaviour(store[e.op[2]]).hops \/ e.wire.res # WireBehaviour(store[e.op[2]]).res))
+            => Viol(l, sid, "C16", "G16_behavesAsConfigured", e.op[2] \o " sent " \o ToString(e.wire.hops) \o " request(s): " \o e.wire.res)
+       /\ (e.op[1] = "send" /\ ~SameHeaders(store[e.op[2]].h, Pairs(e.wire.hdrs)))
+            => Viol(l, sid, "C16", "G16_wireHeaders", e.op[2])
        /\ \A o \in Wrong(Apply(store, e.op), e.snap) :
             Viol(l, sid, "C16", IF o = e.op[2] THEN "G16_operationEffect" ELSE "G16_noFlowBackOrSideways", o \o " after " \o e.op[1])
 TraceNext == l <= Len(Rec) /\ l' = l + 1 /\ Step(Rec[l])
